@@ -119,7 +119,7 @@ CLAIMED = {
             TB + DAEMON_NOTE + "'answered' means handed to the connection's send function (delivery of the bytes is C10).",
             "Lean 4 proof over executable model + differential correspondence with the compiled daemon", "DESIGN.md §6 C02, docs/C02-proofs.md"),
     "C03": ("proof",
-            "26 Lean theorems over the daemon model: routes_wf, rid_unique / rid_fresh (generated ids differ from every in-flight id; hypotheses: "
+            "31 Lean theorems: 26 over the daemon model and 5 over the cJSON tree layer (Cjet.Cjson.TreeOps: cJSON_Duplicate returns the original field for field and child for child at every depth, succeeds whenever its allocations do; GetObjectItem finds the first member equal under ASCII case folding) tied to the real cJSON.c by the cjsontree component harness. Daemon model: routes_wf, rid_unique / rid_fresh (generated ids differ from every in-flight id; hypotheses: "
             "address tokens are non-empty and '_'-free, fewer than 2^32 requests in the run), routed_delivery (exactly one message, to the owner, "
             "path and payload unchanged), entry_stable / resolution_cases (a routing entry is untouched by everything except its own resolvers: "
             "third-party independence), final_answer_reply / _timeout / _shutdown (exactly one answer with the original id, payload unchanged or "
@@ -235,7 +235,7 @@ CLAIMED = {
             "matchers, fetcher-table growth, raw / HTTP / WebSocket connection set-up): unwind_releases_all (for EVERY failure point the held set "
             "equals the held set before, nothing released twice), at_most_one_response, table_not_left_dangling; the audit rejects the pre-repair "
             "routed-request ladder; startup_goto_ladders_audit / startup_failure_releases_all for the goto ladders of run_io (label for label, "
-            "tied to the real linux_io.c by the Startup component harness). Tie: single-fault enumeration — every allocation of every corpus scenario (all request types, teardown paths, "
+            "tied to the real linux_io.c by the Startup component harness); json_duplicate_failure_leaks_nothing / json_duplicate_stops_at_first_failure / json_duplicate_children_ledger: cJSON_Duplicate under EVERY schedule of failing allocations gives back all it took and stops at the first failure (Cjet.Cjson.TreeOps, tied to the real cJSON.c: every allocation index of every generated item). Tie: single-fault enumeration — every allocation of every corpus scenario (all request types, teardown paths, "
             "authentication, regressions) fails in turn (every index, both tiers) plus multi-fault runs, judged by "
             "ASan/UBSan/LSan, accounted heap, peers, descriptors, two liveness probes and at most one response per request.",
             TB + "The ladder transcriptions are by hand (per-step C line tables in docs/C15-proofs.md); one C allocation does not map one-to-one to a "
